@@ -551,6 +551,13 @@ class Sim:
                     for o, m in oracles.seg_correspondence(tr):
                         self.violate("C07", o, f"after refused {kind}: {m}", op, tags)
                         return
+                if self.opts.get("own") in ("C03", "C04", "C05", "C06", "C08", "C09"):
+                    # the state properties speak about every state reachable through user
+                    # actions, refused attempts included: the session goes on, and the own
+                    # oracle looks at what the next accepted action leaves behind
+                    self.count("refused_edit_changed_state_session_continues")
+                    self.last_canon = post
+                    return
                 self.guard("refused_edit_changed_state", f"{kind} {out.get('exc')}")
             if self.active("C20") and new_em:
                 self.violate("C20", "C20.count", f"refused {kind} emitted {len(new_em)} refresh signal(s)", op, tags)
@@ -789,6 +796,11 @@ class Sim:
                 if own:
                     self.violate("C02", "C02.timeline.return", f"{kind}() returned {val!r} with nothing to step to", op)
                     return
+                if self.active("C20") and self.n_subs and len(self.emissions) > pre["nem"]:
+                    # "undo/redo calls with nothing to do emit none": nothing to do by the
+                    # timeline of this session, whatever the call returned
+                    self.violate("C20", "C20.count", f"{kind}() with nothing to step to (by the session's timeline) delivered {len(self.emissions) - pre['nem']} refresh emission(s)", op)
+                    return
                 return self._defer("history_diverged")
             if post != pre["canon"]:
                 if own:
@@ -950,6 +962,15 @@ class Sim:
             raise
         except Exception as e:  # noqa: BLE001
             if isinstance(e, Warning):
+                tb, inner = e.__traceback__, ""
+                while tb is not None:
+                    inner = tb.tb_frame.f_code.co_filename
+                    tb = tb.tb_next
+                if "/annotators/" in inner:
+                    # the escalated warning came from an annotator in the middle of a
+                    # primitive action: "an annotator raises mid-action" is outside every
+                    # listed property (DESIGN §9), the run is discarded and counted
+                    self.guard("annotator_warning_abort", f"{kind}: {str(e)[:100]}")
                 self.count("f5_warning_refused_" + type(e).__name__)
             if _from_dependency(e):
                 # a dependency (skimage/numpy) cannot compute a feature for this mask:
